@@ -120,9 +120,6 @@ func RunDaemon() {
 			g.Add(func() error {
 				err := mon.Run(ctx)
 				ui.Info("Sensor Monitor for sensor %s stopped.", s.GetId())
-				if err != nil {
-					panic(err)
-				}
 				return err
 			}, func(err error) {
 				if err != nil {
@@ -141,7 +138,6 @@ func RunDaemon() {
 				ui.Info("Fan controller for fan %s stopped.", fan.GetId())
 				if err != nil {
 					ui.NotifyError(fmt.Sprintf("Fan Controller: %s", fan.GetId()), err.Error())
-					panic(err)
 				}
 				return err
 			}, func(err error) {
